@@ -1,5 +1,6 @@
-(* C19 adaptor, text level: ParseBLOB_Recursive run over str(bytes) of a structured blob printed by the assumed writer
-   returns the dictionary [top_pv] of that blob. *)
+(* C19 adaptor, text level: ParseBLOB_Recursive (quote aware: braces inside double quoted text are ordinary characters) run
+   over str(bytes) of a structured blob printed by the assumed writer returns the dictionary [top_pv] of that blob.
+   Main theorem: parse_top_q (free-text pieces IRaw and quoted values may hold braces); parse_top is its brace-free corollary. *)
 From Coq Require Import String Ascii List Bool Arith Lia.
 From KV Require Import Lib.Str Lib.ODict Gen.VppSrc Model.Vpp Model.VppWriter Model.Uml Model.UmlBlob Model.UmlWriter
                        Proofs.VppStr Proofs.UmlBlobDefs Proofs.UmlBlobTree Proofs.UmlBlobFields Proofs.UmlBlobStruct.
@@ -82,7 +83,8 @@ Proof. intros. unfold body_pv. rewrite <- kids_eq. reflexivity. Qed.
 
 Definition wf_item (it : witem) : bool :=
   match it with
-  | IRaw _ | IInert _ => false
+  | IInert _ => false
+  | IRaw s => String.eqb s (chop s ++ ";") && raw_ok (chop s)
   | IChildren ws k o sep c ns => seg_ok (seg_of it) && forallb (fun x => wf_node x) ns
   | _ => seg_ok (seg_of it)
   end.
@@ -97,7 +99,8 @@ Proof.
        | [] => true
        | it :: r =>
            match it with
-           | IRaw _ | IInert _ => false
+           | IInert _ => false
+           | IRaw s => String.eqb s (chop s ++ ";") && raw_ok (chop s)
            | IChildren ws k o sep c ns =>
                seg_ok (seg_of it) && (fix each (l : list wnode) : bool := match l with [] => true | x :: t => wf_node x && each t end) ns
            | _ => seg_ok (seg_of it)
@@ -107,6 +110,17 @@ Proof.
     destruct it as [ws k v|ws k o sep c ids|ws k o sep c ns|s|s]; reflexivity. }
   rewrite <- E. reflexivity.
 Qed.
+
+(* a well formed item is a well formed segment *)
+Lemma wf_item_seg : forall it, wf_item it = true -> seg_ok (seg_of it) = true.
+Proof.
+  intros it H. destruct it as [ws k v|ws k o sep c ids|ws k o sep c ns|s|s]; try discriminate H; try exact H;
+    cbn [wf_item] in H; apply andb_true_iff in H; [exact (proj1 H) | exact (proj2 H)].
+Qed.
+
+(* a well formed free-text piece is the text of its segment *)
+Lemma wf_raw_text : forall s, wf_item (IRaw s) = true -> s = seg_text (seg_of (IRaw s)).
+Proof. intros s H. cbn [wf_item] in H. apply andb_true_iff in H. destruct H as [E _]. apply String.eqb_eq in E. exact E. Qed.
 
 (* ---------------------------------------------------------------- the brace forest of str(bytes) of a node *)
 
@@ -260,43 +274,7 @@ Ltac nbr :=
   repeat (rewrite nobrace_app; apply andb_true_iff; split);
   first [assumption | reflexivity | apply ws_nobrace; assumption | apply lay_nobrace; assumption].
 
-(* ---------------------------------------------------------------- the forest is well formed *)
-
-Lemma bts_ok_app : forall a b, bts_ok (a ++ b)%list = bts_ok a && bts_ok b.
-Proof. induction a as [|x a IH]; intro b; [reflexivity|]. cbn [app bts_ok]. rewrite IH, andb_assoc. reflexivity. Qed.
-
-Definition ok_spec (x : wnode) : Prop := bts_ok (node_bts x) = true.
-
-Lemma blocks_ok : forall sep ns, nobrace sep = true -> Forall ok_spec ns -> bts_ok (blocks sep (map node_bts ns)) = true.
-Proof.
-  intros sep ns Hs. induction ns as [|x t IH]; intro H; [reflexivity|].
-  pose proof (Forall_inv H) as Hx. pose proof (Forall_inv_tail H) as Ht. unfold ok_spec in Hx.
-  destruct t as [|y t'].
-  - cbn [map]. rewrite blocks_one. cbn [bts_ok]. rewrite bt_ok_block, Hx. reflexivity.
-  - cbn [map]. rewrite blocks_more. cbn [bts_ok]. rewrite bt_ok_block, Hx.
-    change (node_bts y :: map node_bts t') with (map node_bts (y :: t')). rewrite (IH Ht).
-    cbn [bt_ok]. rewrite (nobrace_R _ Hs). reflexivity.
-Qed.
-
-Lemma item_ok : forall it, wf_item it = true -> nb_item it = true -> Forall ok_spec (kids_of it) -> bts_ok (item_bts it) = true.
-Proof.
-  intros it Hw Hn H. destruct it as [ws k v|ws k o sep c ids|ws k o sep c ns|s|s]; try discriminate Hw;
-    cbn [wf_item seg_of seg_ok] in Hw; cbn [nb_item] in Hn; split_and.
-  - cbn [item_bts bts_ok bt_ok print_item]. rewrite andb_true_r. apply nobrace_R. nbr.
-  - cbn [item_bts bts_ok bt_ok print_item]. rewrite andb_true_r. apply nobrace_R.
-    assert (nobrace (refs_text sep ids) = true) by (apply refs_nobrace; [apply lay_nobrace|]; assumption). nbr.
-  - cbn [kids_of] in H. cbn [item_bts bts_ok]. rewrite bts_ok_app, (blocks_ok sep ns) by (try apply lay_nobrace; assumption).
-    cbn [bts_ok bt_ok]. rewrite !nobrace_R by nbr. reflexivity.
-Qed.
-
-Lemma items_ok : forall its, forallb wf_item its = true -> forallb nb_full its = true -> Forall ok_spec (children_of its) ->
-  bts_ok (flat_map item_bts its) = true.
-Proof.
-  induction its as [|it r IH]; intros Hw Hn H; [reflexivity|].
-  cbn [forallb] in Hw, Hn. unfold nb_full in Hn at 1. split_and.
-  rewrite children_of_cons in H. apply Forall_app in H. destruct H as [K1 K2].
-  cbn [flat_map]. rewrite bts_ok_app, item_ok, IH by assumption. reflexivity.
-Qed.
+(* ---------------------------------------------------------------- the children of well formed items *)
 
 Lemma wf_items_children : forall its, forallb wf_item its = true -> Forall (fun x => wf_node x = true) (children_of its).
 Proof.
@@ -318,24 +296,204 @@ Proof.
   apply Forall_forall. intros x Hx. rewrite forallb_forall in H1. exact (H1 x Hx).
 Qed.
 
-Lemma node_ok : forall n, wf_node n = true -> nb_node n = true -> ok_spec n.
+(* ---------------------------------------------------------------- braces outside quoted texts only *)
+
+(* like nb_item, but a quoted value and a free-text piece may hold braces *)
+Definition nbq_item (it : witem) : bool :=
+  match it with
+  | IField _ k v => nobrace k && (prefixb dq v || nobrace v)
+  | IRefs _ k _ _ _ ids => nobrace k && forallb nobrace ids
+  | IChildren _ k _ _ _ _ => nobrace k
+  | IRaw _ | IInert _ => true
+  end.
+
+Definition nbq_full (it : witem) : bool :=
+  nbq_item it && match it with IChildren _ _ _ _ _ ns => forallb nbq_node ns | _ => true end.
+
+Lemma nbq_node_eq : forall id nm ty its tl,
+  nbq_node (WNode id nm ty its tl) = nobrace id && nobrace (name_text nm) && nobrace ty && forallb nbq_full its.
+Proof.
+  intros.
+  assert (E : forall l : list witem,
+    (fix items (l : list witem) : bool :=
+       match l with
+       | [] => true
+       | it :: r =>
+           match it with
+           | IField _ k v => nobrace k && (prefixb dq v || nobrace v)
+           | IRefs _ k _ _ _ ids => nobrace k && forallb nobrace ids
+           | IChildren _ k _ _ _ ns =>
+               nobrace k && (fix each (l : list wnode) : bool := match l with [] => true | x :: t => nbq_node x && each t end) ns
+           | _ => true
+           end && items r
+       end) l = forallb nbq_full l).
+  { induction l as [|it r IH]; [reflexivity|]. cbn [forallb]. rewrite <- IH. unfold nbq_full.
+    destruct it as [ws k v|ws k o sep c ids|ws k o sep c ns|s|s]; cbn [nbq_item]; rewrite ?andb_true_r; reflexivity. }
+  rewrite <- E. reflexivity.
+Qed.
+
+Lemma seg_nb_of : forall it, seg_nb (seg_of it) = nbq_item it.
+Proof. destruct it; reflexivity. Qed.
+
+Lemma nbq_items_children : forall its, forallb nbq_full its = true -> Forall (fun x => nbq_node x = true) (children_of its).
+Proof.
+  induction its as [|it r IH]; intro H; [constructor|].
+  cbn [forallb] in H. apply andb_true_iff in H. destruct H as [H1 H2].
+  rewrite children_of_cons. apply Forall_app. split; [|exact (IH H2)].
+  unfold nbq_full in H1. apply andb_true_iff in H1. destruct H1 as [_ H1].
+  destruct it as [ws k v|ws k o sep c ids|ws k o sep c ns|s|s]; try constructor. cbn [kids_of].
+  apply Forall_forall. intros x Hx. rewrite forallb_forall in H1. exact (H1 x Hx).
+Qed.
+
+(* the brace-free domain is part of the quote-aware one *)
+Lemma nb_nbq_item : forall it, nb_item it = true -> nbq_item it = true.
+Proof.
+  intros it H. destruct it as [ws k v|ws k o sep c ids|ws k o sep c ns|s|s]; try reflexivity; try exact H.
+  cbn [nb_item] in H. apply andb_true_iff in H. destruct H as [H1 H2]. cbn [nbq_item]. rewrite H1, H2. apply orb_true_r.
+Qed.
+
+Lemma nb_nbq_items : forall its, Forall (fun x => nb_node x = true -> nbq_node x = true) (children_of its) ->
+  forallb nb_full its = true -> forallb nbq_full its = true.
+Proof.
+  induction its as [|it r IH]; intros H Hf; [reflexivity|].
+  cbn [forallb] in Hf. apply andb_true_iff in Hf. destruct Hf as [H1 H2].
+  rewrite children_of_cons in H. apply Forall_app in H. destruct H as [K1 K2].
+  cbn [forallb]. rewrite (IH K2 H2), andb_true_r.
+  unfold nb_full in H1. apply andb_true_iff in H1. destruct H1 as [H1 H3].
+  unfold nbq_full. rewrite (nb_nbq_item it H1). cbn [andb].
+  destruct it as [ws k v|ws k o sep c ids|ws k o sep c ns|s|s]; try reflexivity.
+  cbn [kids_of] in K1. apply forallb_forall. intros x Hx. rewrite forallb_forall in H3.
+  exact (proj1 (Forall_forall _ _) K1 x Hx (H3 x Hx)).
+Qed.
+
+Lemma nb_nbq : forall n, nb_node n = true -> nbq_node n = true.
+Proof.
+  induction n as [id nm ty its tl H] using wnode_ind2. intro Hn.
+  rewrite nb_node_eq in Hn. rewrite nbq_node_eq. split_and.
+  rewrite (nb_nbq_items its H) by assumption.
+  repeat match goal with E : _ = true |- _ => rewrite E; clear E end. reflexivity.
+Qed.
+
+Lemma sq_quote_ok : forall s, no_char SQ s = true -> quote_ok s = true.
+Proof. intros s H. unfold quote_ok. rewrite H. apply orb_true_r. Qed.
+
+(* ---------------------------------------------------------------- the forest is well formed *)
+
+Lemma bts_scan_app : forall a b st, bts_scan (a ++ b)%list st = bts_scan b (bts_scan a st).
+Proof. induction a as [|x a IH]; intros b st; [reflexivity|]. cbn [app bts_scan]. apply IH. Qed.
+
+(* from the initial string state the forest of a node holds no brace outside quoted text, and ends in that state *)
+Definition ok_spec (x : wnode) : Prop := bts_scan (node_bts x) (Some qst0) = Some qst0.
+
+Lemma block_ok : forall l, bts_scan l (Some qst0) = Some qst0 -> bt_scan (BBlock l) (Some qst0) = Some qst0.
+Proof. intros l H. rewrite bt_scan_block, H. reflexivity. Qed.
+
+Lemma text_ok : forall s, free_of ["{"; "}"]%char qst0 s = true -> scan qst0 s = qst0 -> bt_scan (BText s) (Some qst0) = Some qst0.
+Proof. intros s H1 H2. cbn [bt_scan]. rewrite H1, H2. reflexivity. Qed.
+
+(* a text without double quote and brace *)
+Lemma nqb_ok : forall x, allc nqb x = true -> bt_scan (BText (R x)) (Some qst0) = Some qst0.
+Proof. intros x H. destruct (nqb_atomic x H) as [A1 A2]. exact (text_ok _ A1 A2). Qed.
+
+Lemma semi_free : forall q, free_of ["{"; "}"]%char q ";" = true.
+Proof. intros [[] []]; reflexivity. Qed.
+
+(* a text closed by its ';' *)
+Lemma semi_ok : forall x, free_of ["{"; "}"]%char qst0 (R x) = true -> scan qst0 (R x ++ ";") = qst0 ->
+  bt_scan (BText (R (x ++ ";"))) (Some qst0) = Some qst0.
+Proof.
+  intros x H1 H2. apply text_ok; rewrite R_app; change (R ";") with ";".
+  - rewrite UmlBlobFields.free_of_app, H1, semi_free. reflexivity.
+  - exact H2.
+Qed.
+
+Lemma seg_text_ok : forall s, seg_ok s = true -> seg_nb s = true -> bt_scan (BText (R (seg_text s))) (Some qst0) = Some qst0.
+Proof.
+  intros s H Hn. rewrite seg_text_body. destruct (seg_atomic s H) as [_ A2].
+  apply semi_ok; [exact (seg_nobrace s H Hn) | exact A2].
+Qed.
+
+Lemma blocks_ok : forall sep ns, allc nqb sep = true -> Forall ok_spec ns ->
+  bts_scan (blocks sep (map node_bts ns)) (Some qst0) = Some qst0.
+Proof.
+  intros sep ns Hs. induction ns as [|x t IH]; intro H; [reflexivity|].
+  pose proof (Forall_inv H) as Hx. pose proof (Forall_inv_tail H) as Ht. unfold ok_spec in Hx.
+  destruct t as [|y t'].
+  - cbn [map]. rewrite blocks_one. cbn [bts_scan]. rewrite (block_ok _ Hx). reflexivity.
+  - cbn [map]. rewrite blocks_more. cbn [bts_scan]. rewrite (block_ok _ Hx), (nqb_ok sep Hs).
+    change (node_bts y :: map node_bts t') with (map node_bts (y :: t')). exact (IH Ht).
+Qed.
+
+Lemma item_ok : forall it, wf_item it = true -> nbq_item it = true -> Forall ok_spec (kids_of it) ->
+  bts_scan (item_bts it) (Some qst0) = Some qst0.
+Proof.
+  intros it Hw Hn H. rewrite <- seg_nb_of in Hn.
+  destruct it as [ws k v|ws k o sep c ids|ws k o sep c ns|s|s]; [| | | |discriminate Hw].
+  - cbn [wf_item] in Hw. cbn [item_bts bts_scan]. exact (seg_text_ok _ Hw Hn).
+  - cbn [wf_item] in Hw. cbn [item_bts bts_scan]. exact (seg_text_ok _ Hw Hn).
+  - cbn [wf_item seg_of seg_ok] in Hw. cbn [seg_of seg_nb] in Hn. cbn [kids_of] in H. split_and.
+    rewrite wsok_allc, layok_allc in *.
+    pose proof (keyok_plain k ltac:(assumption)) as Hk. rewrite nobrace_allc in Hn.
+    pose proof (allc_and plain_char nbc k Hk Hn) as Hkb.
+    assert (Hc : allc nqb c = true) by cls.
+    cbn [item_bts bts_scan].
+    rewrite (nqb_ok (ws ++ k ++ "=" ++ o)) by cls.
+    rewrite bts_scan_app, (blocks_ok sep ns) by cls.
+    cbn [bts_scan]. destruct (nqb_atomic c Hc) as [A1 A2].
+    apply semi_ok; [exact A1 | apply semi_after; exact A2].
+  - pose proof (wf_raw_text s Hw) as E. pose proof (wf_item_seg _ Hw) as Hr.
+    cbn [item_bts bts_scan print_item]. rewrite E. exact (seg_text_ok _ Hr Hn).
+Qed.
+
+Lemma items_ok : forall its, forallb wf_item its = true -> forallb nbq_full its = true -> Forall ok_spec (children_of its) ->
+  bts_scan (flat_map item_bts its) (Some qst0) = Some qst0.
+Proof.
+  induction its as [|it r IH]; intros Hw Hn H; [reflexivity|].
+  cbn [forallb] in Hw, Hn. unfold nbq_full in Hn at 1. split_and.
+  rewrite children_of_cons in H. apply Forall_app in H. destruct H as [K1 K2].
+  cbn [flat_map]. rewrite bts_scan_app, item_ok by assumption. apply IH; assumption.
+Qed.
+
+(* the header: id, quoted name (or NULL), type; the quotes of the name are balanced *)
+Lemma head_ok : forall id nm ty, headok id nm ty = true -> nobrace id = true -> nobrace ty = true ->
+  bt_scan (BText (R (head_text id nm ty))) (Some qst0) = Some qst0.
+Proof.
+  intros id nm ty H Hi Ht. destruct (headok_parts _ _ _ H) as [[Pi _] [Pn [Pt _]]].
+  rewrite nobrace_allc in Hi, Ht.
+  pose proof (allc_and plain_char nbc id Pi Hi) as Qi. pose proof (allc_and plain_char nbc ty Pt Ht) as Qt.
+  destruct nm as [s|].
+  - destruct Pn as [Ps _].
+    assert (H1 : allc nqb (id ++ ":") = true) by cls.
+    assert (H3 : allc nqb (":" ++ ty ++ " ") = true) by cls.
+    destruct (nqb_atomic _ H1) as [A1 A2]. destruct (quoted_atomic ["{"; "}"]%char s Ps eq_refl) as [B1 B2].
+    destruct (nqb_atomic _ H3) as [C1 C2].
+    unfold head_text, qname.
+    replace (id ++ ":" ++ (dq ++ s ++ dq) ++ ":" ++ ty ++ " ") with ((id ++ ":") ++ (dq ++ s ++ dq) ++ (":" ++ ty ++ " "))
+      by (rewrite !sapp_assoc; reflexivity).
+    unfold R. rewrite (repr_body_app SQ (id ++ ":")), (repr_body_app SQ (dq ++ s ++ dq)).
+    apply text_ok.
+    + rewrite UmlBlobFields.free_of_app, A1, A2, UmlBlobFields.free_of_app, B1, B2, C1. reflexivity.
+    + rewrite UmlBlobFields.scan_app, A2, UmlBlobFields.scan_app, B2. exact C2.
+  - apply nqb_ok. unfold head_text, qname. cls.
+Qed.
+
+Lemma node_ok : forall n, wf_node n = true -> nbq_node n = true -> ok_spec n.
 Proof.
   induction n as [id nm ty its tl H] using wnode_ind2. intros Hw Hn. unfold ok_spec.
-  rewrite wf_node_eq in Hw. rewrite nb_node_eq in Hn. split_and.
+  rewrite wf_node_eq in Hw. rewrite nbq_node_eq in Hn. split_and.
   assert (Hc : Forall ok_spec (children_of its)).
   { apply Forall_forall. intros x Hx.
     apply (proj1 (Forall_forall _ _) H x Hx).
     - exact (proj1 (Forall_forall _ _) (wf_items_children its ltac:(assumption)) x Hx).
-    - exact (proj1 (Forall_forall _ _) (nb_items_children its ltac:(assumption)) x Hx). }
-  rewrite node_bts_eq. cbn [bts_ok]. rewrite bt_ok_block. unfold body_bts.
-  rewrite bts_ok_app, items_ok by assumption. cbn [bts_ok bt_ok].
-  rewrite !nobrace_R; [reflexivity | nbr |].
-  unfold head_text. pose proof (qname_nobrace nm ltac:(assumption)). nbr.
+    - exact (proj1 (Forall_forall _ _) (nbq_items_children its ltac:(assumption)) x Hx). }
+  rewrite node_bts_eq. cbn [bts_scan]. rewrite head_ok by assumption. apply block_ok.
+  unfold body_bts. rewrite bts_scan_app, items_ok by assumption. cbn [bts_scan].
+  apply nqb_ok. match goal with E : wsok tl = true |- _ => rewrite wsok_allc in E end. cls.
 Qed.
 
-(* ---------------------------------------------------------------- frames: the outside read so far and the children *)
+(* ---------------------------------------------------------------- frames: the outside read so far, the children, the string state *)
 
-Definition mk (t : string) (cs : list (string * pv)) : frame := {| f_out := srev t; f_children := cs |}.
+Definition mk (t : string) (cs : list (string * pv)) (st : qst) : frame := {| f_out := srev t; f_children := cs; f_st := st |}.
 Definition addc (cs : list (string * pv)) (v : pv) : list (string * pv) :=
   upsert String.eqb ("child_" ++ dec (List.length cs)) v cs.
 
@@ -348,77 +506,94 @@ Proof. induction t as [|c t IH]; intros a b; [reflexivity|]. cbn [srev_onto]. re
 Lemma srev_srev : forall t, srev (srev t) = t.
 Proof. intro t. unfold srev. rewrite srev_onto_invol. cbn [srev_onto]. apply sapp_nil_r. Qed.
 
-Lemma feed_eq : forall s f, feed s f = {| f_out := srev_onto s (f_out f); f_children := f_children f |}.
+Lemma feed_eq : forall s f,
+  feed s f = {| f_out := srev_onto s (f_out f); f_children := f_children f; f_st := scan (f_st f) s |}.
 Proof. induction s as [|c s IH]; intro f; [destruct f; reflexivity|]. cbn [feed]. rewrite IH. reflexivity. Qed.
 
-Lemma feed_mk : forall s t cs, feed s (mk t cs) = mk (t ++ s) cs.
-Proof. intros. rewrite feed_eq. unfold mk, srev. cbn [f_out f_children]. rewrite srev_onto_app. reflexivity. Qed.
+Lemma feed_mk : forall s t cs st, feed s (mk t cs st) = mk (t ++ s) cs (scan st s).
+Proof. intros. rewrite feed_eq. unfold mk, srev. cbn [f_out f_children f_st]. rewrite srev_onto_app. reflexivity. Qed.
 
-Lemma add_child_mk : forall t cs v, add_child (mk t cs) v = mk t (addc cs v).
+(* after a child the scanner is in its initial state *)
+Lemma add_child_mk : forall t cs st v, add_child (resume (mk t cs st)) v = mk t (addc cs v) qst0.
 Proof. reflexivity. Qed.
 
-Lemma finalize_mk : forall t cs,
-  finalize (mk t cs) = match values_from_outside t with Some res => Some (with_children res cs) | None => None end.
+(* the dictionary of a frame does not depend on the string state *)
+Lemma finalize_mk : forall t cs st,
+  finalize (mk t cs st) = match values_from_outside t with Some res => Some (with_children res cs) | None => None end.
 Proof. intros. unfold finalize, mk. cbn [f_out f_children]. rewrite srev_srev. reflexivity. Qed.
 
-Lemma frame0_mk : frame0 = mk "" [].
+Lemma frame0_mk : frame0 = mk "" [] qst0.
 Proof. reflexivity. Qed.
 
-Lemma bt_frame_text : forall s t cs, bt_frame (BText s) (Some (mk t cs)) = Some (mk (t ++ s) cs).
+Lemma bt_frame_text : forall s t cs st, bt_frame (BText s) (Some (mk t cs st)) = Some (mk (t ++ s) cs (scan st s)).
 Proof. intros. cbn [bt_frame]. rewrite feed_mk. reflexivity. Qed.
 
 Lemma bts_frame_app : forall a b acc, bts_frame (a ++ b)%list acc = bts_frame b (bts_frame a acc).
 Proof. induction a as [|x a IH]; intros b acc; [reflexivity|]. cbn [app bts_frame]. apply IH. Qed.
 
-Lemma block_sem : forall l v f, sem l = Some v -> bt_frame (BBlock l) (Some f) = Some (add_child f v).
+Lemma block_sem : forall l v f, sem l = Some v -> bt_frame (BBlock l) (Some f) = Some (add_child (resume f) v).
 Proof.
   intros l v f H. rewrite bt_frame_block. unfold sem in H.
   destruct (bts_frame l (Some frame0)) as [fr|]; [|discriminate H]. rewrite H. reflexivity.
 Qed.
 
+(* the string state of the frame after a forest (when it is read) *)
+Fixpoint bts_st (l : list bt) (st : qst) : qst :=
+  match l with
+  | [] => st
+  | BText s :: r => bts_st r (scan st s)
+  | BBlock _ :: r => bts_st r qst0
+  end.
+
+Lemma bts_st_app : forall a b st, bts_st (a ++ b)%list st = bts_st b (bts_st a st).
+Proof. induction a as [|x a IH]; intros b st; [reflexivity|]. destruct x as [s|l]; cbn [app bts_st]; apply IH. Qed.
+
 (* ---------------------------------------------------------------- the structural reading of the forest *)
 
 Definition sem_spec (x : wnode) : Prop := sem (node_bts x) = Some (node_pv x).
 
-Lemma blocks_frame : forall sep ns, Forall sem_spec ns -> forall t cs,
-  bts_frame (blocks sep (map node_bts ns)) (Some (mk t cs)) =
-  Some (mk (t ++ R (rep sep (List.length ns - 1))) (fold_left addc (map node_pv ns) cs)).
+Lemma blocks_frame : forall sep ns, Forall sem_spec ns -> forall t cs st,
+  bts_frame (blocks sep (map node_bts ns)) (Some (mk t cs st)) =
+  Some (mk (t ++ R (rep sep (List.length ns - 1))) (fold_left addc (map node_pv ns) cs) (bts_st (blocks sep (map node_bts ns)) st)).
 Proof.
-  intros sep ns. induction ns as [|x r IH]; intros H t cs.
-  - cbn [map blocks bts_frame List.length Nat.sub rep fold_left]. change (R "") with "". rewrite sapp_nil_r. reflexivity.
+  intros sep ns. induction ns as [|x r IH]; intros H t cs st.
+  - cbn [map blocks bts_frame bts_st List.length Nat.sub rep fold_left]. change (R "") with "". rewrite sapp_nil_r. reflexivity.
   - pose proof (Forall_inv H) as Hx. pose proof (Forall_inv_tail H) as Hr. unfold sem_spec in Hx.
     destruct r as [|y r'].
-    + cbn [map]. rewrite blocks_one. cbn [bts_frame]. rewrite (block_sem _ _ _ Hx), add_child_mk.
+    + cbn [map]. rewrite blocks_one. cbn [bts_frame bts_st]. rewrite (block_sem _ _ _ Hx), add_child_mk.
       cbn [List.length Nat.sub rep fold_left]. change (R "") with "". rewrite sapp_nil_r. reflexivity.
-    + cbn [map]. rewrite blocks_more. cbn [bts_frame]. rewrite (block_sem _ _ _ Hx), add_child_mk, bt_frame_text.
+    + cbn [map]. rewrite blocks_more. cbn [bts_frame bts_st]. rewrite (block_sem _ _ _ Hx), add_child_mk, bt_frame_text.
       change (node_bts y :: map node_bts r') with (map node_bts (y :: r')). rewrite (IH Hr).
       replace (List.length (x :: y :: r') - 1) with (S (List.length (y :: r') - 1)) by (cbn [List.length]; lia).
       cbn [rep fold_left]. rewrite R_app, sapp_assoc. reflexivity.
 Qed.
 
-Lemma item_frame : forall it, wf_item it = true -> Forall sem_spec (kids_of it) -> forall t cs,
-  bts_frame (item_bts it) (Some (mk t cs)) =
-  Some (mk (t ++ R (seg_text (seg_of it))) (fold_left addc (map node_pv (kids_of it)) cs)).
+Lemma item_frame : forall it, wf_item it = true -> Forall sem_spec (kids_of it) -> forall t cs st,
+  bts_frame (item_bts it) (Some (mk t cs st)) =
+  Some (mk (t ++ R (seg_text (seg_of it))) (fold_left addc (map node_pv (kids_of it)) cs) (bts_st (item_bts it) st)).
 Proof.
-  intros it Hw H t cs. destruct it as [ws k v|ws k o sep c ids|ws k o sep c ns|s|s]; try discriminate Hw.
-  - cbn [item_bts bts_frame]. rewrite bt_frame_text. reflexivity.
-  - cbn [item_bts bts_frame]. rewrite bt_frame_text. reflexivity.
-  - cbn [kids_of] in *. cbn [item_bts bts_frame]. rewrite bt_frame_text, bts_frame_app, (blocks_frame sep ns H).
-    cbn [bts_frame]. rewrite bt_frame_text. cbn [seg_of seg_text].
+  intros it Hw H t cs st. destruct it as [ws k v|ws k o sep c ids|ws k o sep c ns|s|s]; [| | | |discriminate Hw].
+  - cbn [item_bts bts_frame bts_st]. rewrite bt_frame_text. reflexivity.
+  - cbn [item_bts bts_frame bts_st]. rewrite bt_frame_text. reflexivity.
+  - cbn [kids_of] in *. cbn [item_bts bts_frame bts_st]. rewrite bt_frame_text, bts_frame_app, (blocks_frame sep ns H), bts_st_app.
+    cbn [bts_frame bts_st]. rewrite bt_frame_text. cbn [seg_of seg_text].
+    f_equal. apply f_equal3; [|reflexivity|reflexivity].
     rewrite !sapp_assoc, <- !R_app, !sapp_assoc. reflexivity.
+  - cbn [item_bts bts_frame bts_st]. rewrite bt_frame_text. cbn [print_item kids_of map fold_left].
+    rewrite <- (wf_raw_text s Hw). reflexivity.
 Qed.
 
 Definition items_segs_text (its : list witem) : string := cat (map (fun it => seg_text (seg_of it)) its).
 
-Lemma items_frame : forall its, forallb wf_item its = true -> Forall sem_spec (children_of its) -> forall t cs,
-  bts_frame (flat_map item_bts its) (Some (mk t cs)) =
-  Some (mk (t ++ R (items_segs_text its)) (fold_left addc (map node_pv (children_of its)) cs)).
+Lemma items_frame : forall its, forallb wf_item its = true -> Forall sem_spec (children_of its) -> forall t cs st,
+  bts_frame (flat_map item_bts its) (Some (mk t cs st)) =
+  Some (mk (t ++ R (items_segs_text its)) (fold_left addc (map node_pv (children_of its)) cs) (bts_st (flat_map item_bts its) st)).
 Proof.
-  induction its as [|it r IH]; intros Hw H t cs.
-  - cbn [flat_map bts_frame]. unfold items_segs_text. cbn [map cat]. change (R "") with "". rewrite sapp_nil_r. reflexivity.
+  induction its as [|it r IH]; intros Hw H t cs st.
+  - cbn [flat_map bts_frame bts_st]. unfold items_segs_text. cbn [map cat]. change (R "") with "". rewrite sapp_nil_r. reflexivity.
   - cbn [forallb] in Hw. apply andb_true_iff in Hw. destruct Hw as [Hw1 Hw2].
     rewrite children_of_cons in *. apply Forall_app in H. destruct H as [K1 K2].
-    cbn [flat_map]. rewrite bts_frame_app, (item_frame it Hw1 K1), (IH Hw2 K2).
+    cbn [flat_map]. rewrite bts_frame_app, (item_frame it Hw1 K1), (IH Hw2 K2), bts_st_app.
     unfold items_segs_text. cbn [map cat]. rewrite map_app, fold_left_app, R_app, sapp_assoc. reflexivity.
 Qed.
 
@@ -426,9 +601,7 @@ Lemma wf_items_segs : forall its, forallb wf_item its = true -> forallb seg_ok (
 Proof.
   induction its as [|it r IH]; intro H; [reflexivity|].
   cbn [forallb] in H. apply andb_true_iff in H. destruct H as [H1 H2].
-  cbn [map forallb]. rewrite (IH H2), andb_true_r.
-  destruct it as [ws k v|ws k o sep c ids|ws k o sep c ns|s|s]; try discriminate H1; try exact H1.
-  cbn [wf_item] in H1. apply andb_true_iff in H1. exact (proj1 H1).
+  cbn [map forallb]. rewrite (IH H2), (wf_item_seg it H1). reflexivity.
 Qed.
 
 Lemma items_segs_text_eq : forall its, items_segs_text its = segs_text (map seg_of its).
@@ -459,16 +632,27 @@ Qed.
 Definition top_bts (n : wnode) : list bt :=
   BText (String "b" (String SQ "")) :: (node_bts n ++ [BText (String SQ "")])%list.
 
-Lemma top_print : forall n, no_char SQ (print_node n) = true -> py_str_bytes (print_node n) = bts_print (top_bts n).
+(* str(bytes) quotes with an apostrophe as soon as the bytes hold a double quote or no apostrophe *)
+Lemma py_str_bytes_q : forall s, quote_ok s = true ->
+  py_str_bytes s = String "b" (String SQ (repr_body SQ s ++ String SQ "")).
 Proof.
-  intros n H. rewrite (py_str_bytes_sq _ H). unfold top_bts. cbn [bts_print bt_print append].
+  intros s H. unfold py_str_bytes, repr_quote. unfold quote_ok in H.
+  destruct (no_char SQ s), (no_char DQ s); try reflexivity; discriminate H.
+Qed.
+
+Lemma top_print : forall n, quote_ok (print_node n) = true -> py_str_bytes (print_node n) = bts_print (top_bts n).
+Proof.
+  intros n H. rewrite (py_str_bytes_q _ H). unfold top_bts. cbn [bts_print bt_print append].
   rewrite bts_print_app. cbn [bts_print bt_print]. rewrite sapp_nil_r. fold (R (print_node n)). rewrite (node_print n).
   reflexivity.
 Qed.
 
-Lemma top_ok : forall n, wf_node n = true -> nb_node n = true -> bts_ok (top_bts n) = true.
+(* the leading  b'  and the closing apostrophe leave the string state alone *)
+Lemma top_ok : forall n, wf_node n = true -> nbq_node n = true -> bts_ok (top_bts n) = true.
 Proof.
-  intros n Hw Hn. unfold top_bts. cbn [bts_ok]. rewrite bts_ok_app, (node_ok n Hw Hn). reflexivity.
+  intros n Hw Hn. unfold bts_ok, top_bts. cbn [bts_scan].
+  change (bt_scan (BText (String "b" (String SQ ""))) (Some qst0)) with (Some qst0).
+  rewrite bts_scan_app, (node_ok n Hw Hn). reflexivity.
 Qed.
 
 Lemma top_sem : forall n, wf_node n = true -> sem (top_bts n) = Some (top_pv n).
@@ -484,17 +668,28 @@ Proof.
   unfold R. rewrite (values_header_top id nm ty Hh). reflexivity.
 Qed.
 
-(* [wf_node] alone is not enough: [plain] texts may hold braces *)
+(* [wf_node] alone is not enough: [plain] texts may hold braces, here an unquoted value *)
 Example parse_top_refuted :
   let n := WNode "a" None "T" [IField "" "k" "{"] "" in
   wf_node n = true /\ no_char SQ (print_node n) = true /\ parse_blob (py_str_bytes (print_node n)) <> Some (top_pv n).
 Proof. cbv zeta. split; [vm_compute; reflexivity|]. split; [vm_compute; reflexivity|]. vm_compute. discriminate. Qed.
 
+(* the quote-aware domain: free-text pieces (IRaw) and quoted values may hold braces, ';', '=' and apostrophes inside their
+   quoted texts; str(bytes) must quote with an apostrophe *)
+Theorem parse_top_q : forall n : wnode,
+  wf_node n = true -> nbq_node n = true -> quote_ok (print_node n) = true ->
+  parse_blob (py_str_bytes (print_node n)) = Some (top_pv n).
+Proof.
+  intros n Hw Hn Hq. rewrite (top_print n Hq), (parse_blob_sem _ (top_ok n Hw Hn)). exact (top_sem n Hw).
+Qed.
+
+Print Assumptions parse_top_q.
+
 Lemma parse_top_nb : forall n : wnode,
   wf_node n = true -> nb_node n = true -> no_char SQ (print_node n) = true ->
   parse_blob (py_str_bytes (print_node n)) = Some (top_pv n).
 Proof.
-  intros n Hw Hn Hq. rewrite (top_print n Hq), (parse_blob_sem _ (top_ok n Hw Hn)). exact (top_sem n Hw).
+  intros n Hw Hn Hq. exact (parse_top_q n Hw (nb_nbq n Hn) (sq_quote_ok _ Hq)).
 Qed.
 
 (* the statement asked for, with the extra brace-freeness hypothesis [nb_node n = true] (see parse_top_refuted) *)
@@ -504,3 +699,90 @@ Lemma parse_top : forall n : wnode,
 Proof. exact parse_top_nb. Qed.
 
 Print Assumptions parse_top.
+
+(* ---------------------------------------------------------------- a top-level name that may hold colons *)
+
+(* the header text again: a name with colons is still a balanced quoted text *)
+Lemma head_ok_c : forall id nm ty, headok_top id nm ty = true -> nobrace id = true -> nobrace ty = true ->
+  bt_scan (BText (R (head_text id nm ty))) (Some qst0) = Some qst0.
+Proof.
+  intros id nm ty H Hi Ht. destruct (headok_top_parts _ _ _ H) as [[Pi _] [Pn [Pt _]]].
+  rewrite nobrace_allc in Hi, Ht.
+  pose proof (allc_and plain_char nbc id Pi Hi) as Qi. pose proof (allc_and plain_char nbc ty Pt Ht) as Qt.
+  destruct nm as [s|].
+  - assert (H1 : allc nqb (id ++ ":") = true) by cls.
+    assert (H3 : allc nqb (":" ++ ty ++ " ") = true) by cls.
+    destruct (nqb_atomic _ H1) as [A1 A2]. destruct (quoted_atomic ["{"; "}"]%char s Pn eq_refl) as [B1 B2].
+    destruct (nqb_atomic _ H3) as [C1 C2].
+    unfold head_text, qname.
+    replace (id ++ ":" ++ (dq ++ s ++ dq) ++ ":" ++ ty ++ " ") with ((id ++ ":") ++ (dq ++ s ++ dq) ++ (":" ++ ty ++ " "))
+      by (rewrite !sapp_assoc; reflexivity).
+    unfold R. rewrite (repr_body_app SQ (id ++ ":")), (repr_body_app SQ (dq ++ s ++ dq)).
+    apply text_ok.
+    + rewrite UmlBlobFields.free_of_app, A1, A2, UmlBlobFields.free_of_app, B1, B2, C1. reflexivity.
+    + rewrite UmlBlobFields.scan_app, A2, UmlBlobFields.scan_app, B2. exact C2.
+  - apply nqb_ok. unfold head_text, qname. cls.
+Qed.
+
+(* the parts of wf_top: the header, the tail, the items *)
+Lemma wf_top_parts : forall id nm ty its tl, wf_top (WNode id nm ty its tl) = true ->
+  headok_top id nm ty = true /\ headok id None ty = true /\ wsok tl = true /\ forallb wf_item its = true.
+Proof.
+  intros id nm ty its tl H. unfold wf_top in H. apply andb_true_iff in H. destruct H as [Hh Hw].
+  rewrite wf_node_eq in Hw. apply andb_true_iff in Hw. destruct Hw as [Hw Hi]. apply andb_true_iff in Hw. destruct Hw as [H0 Ht].
+  repeat split; assumption.
+Qed.
+
+Lemma top_ok_c : forall n, wf_top n = true -> nbq_node n = true -> bts_ok (top_bts n) = true.
+Proof.
+  intros [id nm ty its tl] Hw Hn. destruct (wf_top_parts _ _ _ _ _ Hw) as [Hh [H0 _]].
+  unfold wf_top in Hw. apply andb_true_iff in Hw. destruct Hw as [_ Hw0].
+  rewrite nbq_node_eq in Hn. apply andb_true_iff in Hn. destruct Hn as [Hn Hits].
+  apply andb_true_iff in Hn. destruct Hn as [Hn Hty]. apply andb_true_iff in Hn. destruct Hn as [Hid _].
+  assert (Hn0 : nbq_node (WNode id None ty its tl) = true).
+  { rewrite nbq_node_eq, Hid, Hty, Hits. reflexivity. }
+  pose proof (node_ok _ Hw0 Hn0) as K. unfold ok_spec in K. rewrite node_bts_eq in K. cbn [bts_scan] in K.
+  rewrite (head_ok id None ty H0 Hid Hty) in K.
+  unfold bts_ok, top_bts. cbn [bts_scan].
+  change (bt_scan (BText (String "b" (String SQ ""))) (Some qst0)) with (Some qst0).
+  rewrite bts_scan_app, node_bts_eq. cbn [bts_scan]. rewrite (head_ok_c id nm ty Hh Hid Hty), K. reflexivity.
+Qed.
+
+Lemma top_sem_c : forall n, wf_top n = true -> sem (top_bts n) = Some (top_pv_c n).
+Proof.
+  intros [id nm ty its tl] Hw. destruct (wf_top_parts _ _ _ _ _ Hw) as [Hh [_ [Ht Hi]]].
+  assert (Hc : Forall sem_spec (children_of its)).
+  { apply Forall_forall. intros x Hx. apply node_sem.
+    exact (proj1 (Forall_forall _ _) (wf_items_children its Hi) x Hx). }
+  unfold top_bts, sem. rewrite node_bts_eq, frame0_mk. cbn [app bts_frame]. rewrite !bt_frame_text.
+  rewrite (block_sem _ _ _ (body_sem its tl Hi Ht Hc)), add_child_mk, bt_frame_text, finalize_mk. cbn [append].
+  unfold R. rewrite (values_header_top_c id nm ty Hh). reflexivity.
+Qed.
+
+(* the top-level name may hold colons (the reader then splits the header at them: top_head) *)
+Theorem parse_top_c : forall n : wnode,
+  wf_top n = true -> nbq_node n = true -> quote_ok (print_node n) = true ->
+  parse_blob (py_str_bytes (print_node n)) = Some (top_pv_c n).
+Proof.
+  intros n Hw Hn Hq. rewrite (top_print n Hq), (parse_blob_sem _ (top_ok_c n Hw Hn)). exact (top_sem_c n Hw).
+Qed.
+
+Print Assumptions parse_top_c.
+
+Lemma wf_node_wf_top : forall n, wf_node n = true -> wf_top n = true.
+Proof.
+  intros [id nm ty its tl] H. unfold wf_top. rewrite wf_node_eq in H.
+  apply andb_true_iff in H. destruct H as [H Hi]. apply andb_true_iff in H. destruct H as [Hh Ht].
+  rewrite (headok_headok_top _ _ _ Hh), wf_node_eq, Ht, Hi.
+  assert (H0 : headok id None ty = true).
+  { destruct nm as [s|]; [|exact Hh]. unfold headok in Hh |- *. split_and.
+    repeat match goal with E : _ = true |- _ => rewrite E; clear E end. reflexivity. }
+  rewrite H0. reflexivity.
+Qed.
+
+Lemma top_pv_c_plain : forall id nm ty its tl, headok id nm ty = true ->
+  top_pv_c (WNode id nm ty its tl) = top_pv (WNode id nm ty its tl).
+Proof. intros id nm ty its tl H. unfold top_pv_c, top_pv. rewrite (top_head_plain _ _ _ H). reflexivity. Qed.
+
+Print Assumptions wf_node_wf_top.
+Print Assumptions top_pv_c_plain.
